@@ -16,7 +16,7 @@ func (p *prop) Generate(rng *core.Rand, tier string, emit func(string)) {
 	if p.corpus == nil {
 		p.corpus = loadCorpus()
 	}
-	nSort, nSite, nMut, nGram, nRaw, nLeak := 30000, 2500, 6000, 3000, 1500, 300
+	nSort, nSite, nMut, nGram, nRaw, nLeak := 24000, 2000, 5000, 2500, 1500, 300
 	switch tier {
 	case "thorough":
 		nSort, nSite, nMut, nGram, nRaw, nLeak = 300000, 25000, 90000, 40000, 20000, 2000
